@@ -18,19 +18,23 @@ def ClosedL (succ : Name → List Name) (s : List Name) : Prop := ∀ x, x ∈ s
 
 def newOnes (succ : Name → List Name) (s : List Name) : List Name := (s.flatMap succ).filter (fun x => !s.contains x)
 
+omit [Rules] in
 theorem closeRounds_succ (succ : Name → List Name) (n : Nat) (s : List Name) :
     closeRounds succ (n + 1) s = closeRounds succ n (s ++ newOnes succ s) := rfl
 
+omit [Rules] in
 theorem mem_newOnes {succ : Name → List Name} {s : List Name} {y : Name} :
     y ∈ newOnes succ s ↔ (∃ x, x ∈ s ∧ y ∈ succ x) ∧ y ∉ s := by
   simp [newOnes, List.mem_filter, List.mem_flatMap]
 
+omit [Rules] in
 theorem closeRounds_sub (succ : Name → List Name) : ∀ (n : Nat) (s : List Name) (x : Name), x ∈ s → x ∈ closeRounds succ n s
   | 0, _, _, h => h
   | n + 1, s, x, h => by
     rw [closeRounds_succ]
     exact closeRounds_sub succ n _ x (List.mem_append_left _ h)
 
+omit [Rules] in
 theorem closeRounds_sound (succ : Name → List Name) : ∀ (n : Nat) (s : List Name) (x : Name), x ∈ closeRounds succ n s →
     ∃ r, r ∈ s ∧ ReachS succ r x
   | 0, _, x, h => ⟨x, h, ReachS.refl⟩
@@ -49,6 +53,7 @@ theorem closeRounds_sound (succ : Name → List Name) : ∀ (n : Nat) (s : List 
         | step _ hm ih => intro e; exact ReachS.step (ih e) hm
       exact pre hreach rfl
 
+omit [Rules] in
 theorem closed_of_newOnes_nil {succ : Name → List Name} {s : List Name} (h : newOnes succ s = []) : ClosedL succ s := by
   intro x hx y hy
   by_cases hys : y ∈ s
@@ -56,18 +61,21 @@ theorem closed_of_newOnes_nil {succ : Name → List Name} {s : List Name} (h : n
   · have : y ∈ newOnes succ s := mem_newOnes.mpr ⟨⟨x, hx, hy⟩, hys⟩
     rw [h] at this; cases this
 
+omit [Rules] in
 theorem newOnes_nil_of_closed {succ : Name → List Name} {s : List Name} (h : ClosedL succ s) : newOnes succ s = [] := by
   rw [List.eq_nil_iff_forall_not_mem]
   intro y hy
   obtain ⟨⟨x, hx, hxy⟩, hn⟩ := mem_newOnes.mp hy
   exact hn (h x hx y hxy)
 
+omit [Rules] in
 theorem closeRounds_of_closed {succ : Name → List Name} : ∀ (n : Nat) {s : List Name}, ClosedL succ s → closeRounds succ n s = s
   | 0, _, _ => rfl
   | n + 1, s, h => by
     rw [closeRounds_succ, newOnes_nil_of_closed h, List.append_nil]
     exact closeRounds_of_closed n h
 
+omit [Rules] in
 theorem filter_length_lt {p p' : Name → Bool} (himp : ∀ x, p' x = true → p x = true) : ∀ (l : List Name) (y : Name),
     y ∈ l → p y = true → p' y = false → (l.filter p').length < (l.filter p).length
   | [], _, h, _, _ => by cases h
@@ -91,6 +99,7 @@ theorem filter_length_lt {p p' : Name → Bool} (himp : ∀ x, p' x = true → p
       · cases ha : p a <;> simp <;> omega
       · simp [himp a ha', ih]
 
+omit [Rules] in
 /-- after at least as many rounds as there are names outside the seed set, nothing new can be added -/
 theorem closeRounds_closed (succ : Name → List Name) (U : List Name) (hU : ∀ x, x ∈ U → ∀ y, y ∈ succ x → y ∈ U) :
     ∀ (n : Nat) (s : List Name), (∀ x, x ∈ s → x ∈ U) → (U.filter (fun x => !s.contains x)).length ≤ n →
@@ -123,12 +132,14 @@ theorem closeRounds_closed (succ : Name → List Name) (U : List Name) (hU : ∀
           U y hyU (by simpa using hys) (by simp [hy])
         omega
 
+omit [Rules] in
 theorem reachS_in_closed {succ : Name → List Name} {t : List Name} (hc : ClosedL succ t) {r x : Name} (hr : r ∈ t)
     (h : ReachS succ r x) : x ∈ t := by
   induction h with
   | refl => exact hr
   | step _ hm ih => exact hc _ ih _ hm
 
+omit [Rules] in
 /-- **`closeRounds` with enough rounds is the closure.** -/
 theorem mem_closeRounds_iff (succ : Name → List Name) (U s : List Name) (hU : ∀ x, x ∈ U → ∀ y, y ∈ succ x → y ∈ U)
     (hs : ∀ x, x ∈ s → x ∈ U) (x : Name) :
@@ -139,6 +150,7 @@ theorem mem_closeRounds_iff (succ : Name → List Name) (U s : List Name) (hU : 
     exact reachS_in_closed (closeRounds_closed succ U hU U.length s hs (List.length_filter_le _ _))
       (closeRounds_sub succ _ s r hr) hreach
 
+omit [Rules] in
 theorem reachS_of_no_succ {succ : Name → List Name} {r x : Name} (h0 : succ r = []) (h : ReachS succ r x) : x = r := by
   induction h with
   | refl => rfl
